@@ -216,8 +216,12 @@ def print_assumptions(module, names, timeout=600):
         elif l.startswith('@@END'):
             cur = None
         elif cur is not None:
-            m = re.match(r'^([A-Za-z_][\w\.\']*)\s*:', l)
-            if m and not l.startswith(' '):
+            if l.startswith(' ') or l.strip() in ('Axioms:', 'Closed under the global context', 'Section Variables:') \
+                    or l.startswith('Opaque') or l.startswith('Transparent') or l.startswith('Fetching'):
+                continue
+            # the axiom's type may be printed on the same line ("name : type") or on the next, indented one
+            m = re.match(r'^([A-Za-z_][\w\.\']*)\s*(:|$)', l)
+            if m:
                 res[cur].append(m.group(1))
     return res, out
 
